@@ -178,6 +178,30 @@ def body_dups(E, n, v0, v1, v2):
     return (not raised) and len(log) == n
 
 
+MIXED = [1, 1.0, True, 2, 2.0, 0, False, "1"]
+
+
+def body_dups_mixed(E, i0, i1, i2):
+    """equal values of different type (1, 1.0, True) are duplicates too"""
+    vals = [MIXED[concretize(i, 0, 7)] for i in (i0, i1, i2)]
+    dup = any(vals[i] == vals[j] for i in range(3) for j in range(i))
+    log = []
+
+    def fn(a):
+        log.append(a)
+        return 0
+
+    with E():
+        try:
+            out = combo_runner(fn, {"a": vals}, verbosity=0)
+            raised = False
+        except XYZError:
+            raised = True
+    if dup:
+        return raised and not log
+    return (not raised) and len(log) == 3 and len(out) == 3
+
+
 # --------------------------------------------------------------------------
 # (c) shuffle: every permutation of N settings, seed True / int
 SHUF_SHAPES = [(2,), (3,), (2, 2), (4,), (1, 3), (5,), (3, 2), (6,), (2, 3)]
@@ -310,6 +334,10 @@ CONDS = [
               ["2 <= n <= 3 and 0 <= v0 <= 2 and 0 <= v1 <= 2 and 0 <= v2 <= 2"], timeout=60,
               bounds="1 swept arg with 2-3 values in 0..2 (all equal/unequal patterns): duplicates => XYZError "
                      "before any call"),
+    make_cond(_G, "dups_mixed", body_dups_mixed, "i0:int i1:int i2:int",
+              ["0 <= i0 <= 7 and 0 <= i1 <= 7 and 0 <= i2 <= 7"], timeout=120,
+              bounds="3 values drawn from {1, 1.0, True, 2, 2.0, 0, False, '1'}: any two == equal values (also of "
+                     "different type) => XYZError before any call"),
     make_cond(_G, "shuffle_small", body_shuffle, "shp:int use_true:bool mode:int base:int j1:int j2:int j3:int j4:int j5:int",
               ["0 <= shp <= 4 and 0 <= mode <= 2 and j5 == 0"] + _J, timeout=150,
               bounds="every permutation of N<=4 settings over shapes (2),(3),(2,2),(4),(1,3); shuffle=True|int; "
